@@ -467,7 +467,10 @@ func (h *NtfnsHandler) filterTx(dbtx mwdb.ReadTransaction, tx *wire.MsgTx, block
 					// if no output created by previous hash.
 					// Use the open write transaction: a credit created by an
 					// earlier block of the same update is not yet committed.
-					exist := h.walletMgr.utxoStore.ExistCreditFromTx(dbtx, &txIn.PreviousOutPoint.Hash)
+					exist, err := h.walletMgr.utxoStore.ExistCreditFromTx(dbtx, &txIn.PreviousOutPoint.Hash)
+					if err != nil {
+						return false, nil, err
+					}
 					if !exist {
 						continue
 					}
